@@ -127,3 +127,28 @@ def _tile_service_grid(j, conv):
 
 
 builder('mapproxy.service.tile:TileServiceGrid', _tile_service_grid)
+
+
+def _res_range(j, conv):
+    from mapproxy.grid import ResolutionRange
+    r = ResolutionRange.__new__(ResolutionRange)
+    r.min_res = conv(j.get('min_res'))
+    r.max_res = conv(j.get('max_res'))
+    return r
+
+
+builder('mapproxy.grid:ResolutionRange', _res_range)
+
+
+def _map_query(j, conv):
+    from mapproxy.layer import MapQuery
+    dims = j.get('dimensions')
+    if isinstance(dims, dict) and '$pydict' in dims:
+        dims = dict(dims['$pydict'])
+    elif not isinstance(dims, dict) or any(k.startswith('$') for k in dims):
+        from pyvc.replay import NoReplay
+        raise NoReplay('symbolic dimensions dict')
+    return MapQuery(None, None, None, dimensions=dims)
+
+
+builder('mapproxy.layer:MapQuery', _map_query)
